@@ -400,6 +400,8 @@ bool Xml::Private::parseElement(Element& element)
 
 bool Xml::Private::parseText(String& text)
 {
+  if(*pos.pos == '<') // a comment in front of the text
+    skipSpace();
   const char* start = pos.pos;
   for(;;)
   {
